@@ -277,6 +277,10 @@ def generate(unit_dir, mustfail=False, mutate=None, variant=None, template='unit
                     spec['entry'] = txt
                 elif k == 'tail':
                     spec['tail'] = txt
+                elif k == 'maxcalls':
+                    # syntactic guard (like `noreturn`): at most N call sites of a callee, in a function without loops; with the
+                    # postcondition that the call happened this gives `exactly once`; more sites / a loop => the unit is not decided
+                    spec.setdefault('maxcalls', []).append((hdr[1], int(hdr[2])))
                 elif k == 'noreturn':
                     spec['noreturn'] = True    # the function has no early exit (an obligation spliced at its end covers every path)
                 elif k == 'fnend':
@@ -346,6 +350,10 @@ def generate(unit_dir, mustfail=False, mutate=None, variant=None, template='unit
                 spec = dict(rules=spec['rules'] & {'R3'}, plain=True, rename=spec.get('rename'), aliases=spec.get('aliases', {}))
             txt, sh = transform.transform_fn(src, spec)
             rec.n_loops, rec.n_closures = len(sh.loops), len(sh.closures)
+            for callee, nmax in spec.get('maxcalls', []):
+                cnt = len(re.findall(r'\b%s\s*\(' % re.escape(callee), mask(src)[sh.bopen:]))
+                if cnt > nmax or sh.loops:
+                    raise ExtractError('fn %s: %d call site(s) of %s (at most %d allowed%s)' % (rname, cnt, callee, nmax, ', and the function has a loop' if sh.loops else ''))
             if o.get('pub'):
                 txt = 'pub ' + txt.lstrip()
             if o.get('attr'):
